@@ -28,7 +28,8 @@ RULE = ("schedules of 1-8 queued requests (GET/POST with bodies, unique path and
         "framing; 0-3 passes of delay, 1-3 fragments; optional close after the reply; http and https clients; "
         "redirectable on/off; methods GET/HEAD/POST/PUT mixed per request (HEAD replies carry a non-zero Content-Length and no "
         "body) and clients constructed with method HEAD/POST; requests with 0-3 query arguments (as qargs or written into the path) whose "
-        "redirect Locations re-assign none / some / all of the keys, also over multi-hop chains.  A case is non-trivial when >= 3 requests were queued and some reply was delayed, "
+        "redirect Locations re-assign none / some / all of the keys, also over multi-hop chains; requests queued through Client.request WITHOUT qargs (default = copy of the requester's) with and without "
+        "a query in their path, several queued before the earlier one is built.  A case is non-trivial when >= 3 requests were queued and some reply was delayed, "
         "fragmented or a redirect")
 MODELLED = ["response parsing (real Respondent) is abstracted to 'a complete reply with status s and Location l was "
             "consumed in this pass'; request building (real Requester) to the path that appears on the wire",
@@ -164,8 +165,27 @@ def split_target(path):
     return kind, num, q_parse(query)
 
 
-def ev_q(ev):
+def ev_explicit(ev):
+    """qargs passed to Client.request: a list of pairs, or None when the argument is omitted ("none")."""
+    if len(ev) > 3 and ev[3] == "none":
+        return None
+    if len(ev) > 4 and ev[4] == "inpath":
+        return []
     return ev[3] if len(ev) > 3 else []
+
+
+def ev_pathq(ev):
+    """query written into the request's path"""
+    if len(ev) > 4 and ev[4] == "inpath":
+        return ev[3]
+    return ev[4] if len(ev) > 4 and isinstance(ev[4], list) else []
+
+
+def q_merge(base, upd):
+    d = {k: v for k, v in base}
+    for k, v in upd:
+        d[k] = v
+    return [[k, v] for k, v in d.items()]
 
 
 def location_of(k, loc):
@@ -295,7 +315,7 @@ def run_impl(case):
         client = clienting.Client(connector=connector, redirectable=case.get("redirectable", True),
                                   method=case.get("cmethod", "GET"))
         client.reopen()
-        trace, escaped, bodies = [], None, []
+        trace, escaped, bodies, snaps = [], None, [], {}
         events = list(case["events"])
         extra = 0
         while events or extra < case.get("drain", 12):
@@ -304,11 +324,12 @@ def run_impl(case):
             else:
                 ev = ["pass"]; extra += 1
             if ev[0] == "enq":
-                t, m, q = ev[1], ev_method(ev), ev_q(ev)
-                if len(ev) > 4 and ev[4] == "inpath" and q:   # the same arguments written into the path
-                    kw = {"path": f"/t{t}?{q_text(q)}", "qargs": {}}
-                else:
-                    kw = {"path": f"/t{t}", "qargs": {KEYS[k]: str(v) for k, v in q}}
+                t, m, q, pq = ev[1], ev_method(ev), ev_explicit(ev), ev_pathq(ev)
+                kw = {"path": f"/t{t}" + ("?" + q_text(pq) if pq else "")}
+                if q is not None:
+                    kw["qargs"] = {KEYS[k]: str(v) for k, v in q}
+                # Client.request without qargs takes (a copy of) the requester's current ones: note them
+                snaps[t] = _target_of({"path": "/t0", "qargs": client.requester.qargs})[2]
                 if m in ("POST", "PUT"):
                     kw["body"] = f"payload {t}".encode()
                 client.request(method=m, tag=t, **kw)
@@ -338,7 +359,8 @@ def run_impl(case):
         for cid, sec, hi, path, verb in net.wire:
             kind, num, q = split_target(path)
             wire.append([cid, bool(sec), hi, kind, num, verb, q])
-        return {"trace": trace, "entries": entries, "wire": wire, "escaped": escaped, "unsent": len(client.connector.txbs),
+        return {"snaps": {str(k): v for k, v in snaps.items()},
+                "trace": trace, "entries": entries, "wire": wire, "escaped": escaped, "unsent": len(client.connector.txbs),
                 "final": [bool(client.waited), len(client.requests), len(client.redirects)],
                 "conn_https": isinstance(client.connector, tcp.ClientTls), "replies_used": net.k}
     finally:
@@ -424,7 +446,10 @@ def oracle(case, obs):
             return f"entry for request {o} carries method {e['method']}, queued as {m}"
         k += 1
     # transparency: every request line on the wire asks for exactly its own target; a follow-up for exactly the Location
-    qof = {ev[1]: ev_q(ev) for ev in case["events"] if ev[0] == "enq"}
+    # what was queued for request k: its explicit qargs (or the requester's at the moment it was queued, when the
+    # argument was omitted) merged with the query of its own path - nothing queued/sent later may change it
+    qof = {ev[1]: q_merge(ev_explicit(ev) if ev_explicit(ev) is not None else obs["snaps"].get(str(ev[1]), []), ev_pathq(ev))
+           for ev in case["events"] if ev[0] == "enq"}
     for w in obs["wire"]:
         if w[3] == "req":
             if w[6] != qof.get(w[4], []):
@@ -541,6 +566,13 @@ def directed():
         {"events": [["enq", 1, "GET", [[0, 1], [1, 2]], "inpath"], ["enq", 2, "POST", [[2, 9]]]],
          "replies": [{"status": 301, "loc": {"host": 1, "https": False, "q": [[0, 3]]}}, {"status": 307, "loc": {"host": None, "q": [[1, 5]]}},
                      {"status": 303, "loc": {"host": None}}, {}, {"status": 302, "loc": {"host": 1, "https": False, "q": [[2, 9], [0, 0]]}}, {}]},
+        # Client.request WITHOUT qargs, several queued before anything is built, earlier paths carry a query
+        {"events": [["enq", 1, "GET", "none", [[0, 1]]], ["enq", 2, "GET", "none"], ["enq", 3, "GET", "none", [[1, 2]]], ["enq", 4, "GET", "none"]],
+         "replies": [{}, {}, {}, {}]},
+        # ... and queued after an earlier one was built: the default is the requester's qargs of that moment
+        {"events": [["enq", 1, "GET", [[2, 5]], [[0, 1]]], ["pass"], ["enq", 2, "GET", "none"], ["enq", 3, "POST", "none", [[0, 7]]], ["pass"], ["pass"],
+                    ["enq", 4, "GET", [], [[1, 1]]], ["enq", 5, "HEAD", "none"]],
+         "replies": [{"delay": 1}, {}, {"status": 302, "loc": {"host": None, "q": [[1, 3]]}}, {}, {}, {}]},
     ]
 
 
@@ -550,10 +582,18 @@ def gen_case(rng):
     events = []
     for t in tags:
         ev = ["enq", t, rng.choices(METHODS, [5, 3, 2, 1])[0]]
-        if rng.random() < 0.5:
-            ev.append([[k, rng.randrange(10)] for k in rng.sample(range(3), rng.randint(1, 3))])
-            if rng.random() < 0.25:
-                ev.append("inpath")
+        rq = lambda: [[k, rng.randrange(10)] for k in rng.sample(range(3), rng.randint(1, 3))]
+        x = rng.random()
+        if x < 0.3:
+            ev.append(rq())                     # explicit qargs
+            if rng.random() < 0.3:
+                ev.append(rq())                 # ... plus a query in the path
+        elif x < 0.6:
+            ev.append("none")                   # no qargs argument: Client.request's default
+            if rng.random() < 0.6:
+                ev.append(rq())                 # ... with a query in the path
+        elif x < 0.7:
+            ev += [rq(), "inpath"]
         events.append(ev)
         for _ in range(rng.choice([0, 0, 0, 1, 2, 4])):
             events.append(["pass"])
@@ -697,11 +737,13 @@ def to_coq(case, obs):
         ("(HttpClient.WReq %s)" if w[3] == "req" else "(HttpClient.WRedir %s)") % coq_N(w[4]), _q(w[6])) for w in obs["wire"]],
         "HttpClient.wentry")
     meths = coq_list(["(%s, %s)" % (coq_N(ev[1]), coq_N(METHODS.index(ev_method(ev)))) for ev in case["events"] if ev[0] == "enq"], "N * N")
-    qas = coq_list(["(%s, %s)" % (coq_N(ev[1]), _q(ev_q(ev))) for ev in case["events"] if ev[0] == "enq"], "N * HttpClient.qargs")
+    qas = coq_list(["(%s, %s)" % (coq_N(ev[1]), coq_option(ev_explicit(ev), _q, "HttpClient.qargs")) for ev in case["events"] if ev[0] == "enq"],
+                   "N * option HttpClient.qargs")
+    pqs = coq_list(["(%s, %s)" % (coq_N(ev[1]), _q(ev_pathq(ev))) for ev in case["events"] if ev[0] == "enq"], "N * HttpClient.qargs")
     return ("{| HttpClient.c_https := %s; HttpClient.c_redirectable := %s; HttpClient.c_cmethod := %s; HttpClient.c_methods := %s; "
-            "HttpClient.c_qargs := %s; "
+            "HttpClient.c_qargs := %s; HttpClient.c_pathq := %s; "
             "HttpClient.c_events := %s; HttpClient.c_trace := %s; "
             "HttpClient.c_entries := %s; HttpClient.c_wire := %s |}" % (
                 coq_bool(bool(case.get("https"))), coq_bool(case.get("redirectable", True)),
-                coq_N(METHODS.index(case.get("cmethod", "GET"))), meths, qas,
+                coq_N(METHODS.index(case.get("cmethod", "GET"))), meths, qas, pqs,
                 coq_list(evs, "HttpClient.event"), tr, ents, wire))
